@@ -43,119 +43,10 @@ type Case struct {
 // ---- generator ----
 
 type gen struct {
-	r    *vh.Rng
-	addr int
+	*sqlh.Gen
 }
 
-func (g *gen) newAddr() int { g.addr++; return g.addr }
-
-var smallStrings = []string{"a", "b", "bob", "", "x y", "Ab"}
-
-// scalar makes a value of Go type ty with a small payload.
-func (g *gen) scalar(ty string) sqlh.GV {
-	switch ty {
-	case "string", "Label":
-		return sqlh.GV{T: ty, S: g.r.Pick(smallStrings)}
-	case "bool":
-		return sqlh.GV{T: ty, B: g.r.Bool()}
-	case "float64":
-		return sqlh.GV{T: ty, Q: int64(g.r.Intn(9) - 2)}
-	case "bytes":
-		return sqlh.GV{T: ty, S: g.r.Pick(smallStrings)}
-	}
-	z := int64(g.r.Intn(5))
-	if g.r.Chance(10) && !strings.HasPrefix(ty, "uint") {
-		z = -z
-	}
-	return sqlh.GV{T: ty, Z: z}
-}
-
-// fieldValue makes a value of exactly the column's field type.
-func (g *gen) fieldValue(c *sqlh.ColDesc) sqlh.GV {
-	if strings.HasPrefix(c.Ty, "*") {
-		if g.r.Chance(30) {
-			return sqlh.GV{T: "nilptr", PT: c.Ty[1:]}
-		}
-		e := g.scalar(c.Ty[1:])
-		return sqlh.GV{T: "ptr", Addr: g.newAddr(), Elem: &e}
-	}
-	return g.scalar(c.Ty)
-}
-
-func baseType(ty string) string { return strings.TrimPrefix(ty, "*") }
-
-// driverTyped: the type a driver value of this column has in Go (what a write check compares with).
-func driverType(c *sqlh.ColDesc) string {
-	switch baseType(c.Ty) {
-	case "string", "Label":
-		return "string"
-	case "bool":
-		return "bool"
-	case "float64":
-		return "float64"
-	case "bytes":
-		return "bytes"
-	}
-	return "int64"
-}
-
-var intTypes = []string{"int", "int8", "int16", "int32", "int64", "uint", "uint8", "uint16", "uint32", "uint64", "Kind"}
-
-// retype returns a value denoting the same column value with another Go type.
-func (g *gen) retype(v sqlh.GV) sqlh.GV {
-	switch v.T {
-	case "ptr":
-		if g.r.Bool() {
-			return *v.Elem
-		}
-		e := *v.Elem
-		return sqlh.GV{T: "ptr", Addr: g.newAddr(), Elem: &e} // same content, another pointer
-	case "nil":
-		return sqlh.GV{T: "nilptr", PT: "int64"}
-	case "nilptr":
-		return sqlh.GV{T: "nil"}
-	case "string":
-		if g.r.Bool() {
-			return sqlh.GV{T: "Label", S: v.S}
-		}
-		return sqlh.GV{T: "bytes", S: v.S}
-	case "Label":
-		return sqlh.GV{T: "string", S: v.S}
-	case "bytes":
-		return sqlh.GV{T: "string", S: v.S}
-	case "bool", "float64":
-		e := v
-		return sqlh.GV{T: "ptr", Addr: g.newAddr(), Elem: &e}
-	}
-	if g.r.Chance(25) {
-		e := v
-		return sqlh.GV{T: "ptr", Addr: g.newAddr(), Elem: &e}
-	}
-	for {
-		t := intTypes[g.r.Intn(len(intTypes))]
-		if t != v.T && !(strings.HasPrefix(t, "uint") && v.Z < 0) {
-			return sqlh.GV{T: t, Z: v.Z}
-		}
-	}
-}
-
-// other returns a value of the same type denoting another column value.
-func (g *gen) other(v sqlh.GV) sqlh.GV {
-	switch v.T {
-	case "ptr":
-		e := g.other(*v.Elem)
-		return sqlh.GV{T: "ptr", Addr: g.newAddr(), Elem: &e}
-	case "nil", "nilptr":
-		return sqlh.GV{T: "int64", Z: 7}
-	case "string", "Label", "bytes":
-		return sqlh.GV{T: v.T, S: v.S + "z"}
-	case "bool":
-		return sqlh.GV{T: v.T, B: !v.B}
-	case "float64":
-		return sqlh.GV{T: v.T, Q: v.Q + 1}
-	}
-	return sqlh.GV{T: v.T, Z: v.Z + 1 + int64(g.r.Intn(3))}
-}
+func baseType(ty string) string { return sqlh.BaseType(ty) }
 
 var limitCols = map[string][][]string{
 	"users":  {{"shard"}, {"shard"}, {"shard"}, {"shard", "name"}, {"nick"}, {"id"}, {"flag"}},
@@ -166,21 +57,21 @@ var limitCols = map[string][][]string{
 // limitValue: mostly the driver-level type (so that writes can comply), sometimes the field's own type,
 // another type, a pointer, nil.
 func (g *gen) limitValue(c *sqlh.ColDesc) sqlh.GV {
-	k := g.r.Intn(100)
+	k := g.R.Intn(100)
 	switch {
 	case k < 62:
-		v := g.scalar(driverType(c))
-		if v.T == "bytes" && g.r.Chance(70) {
+		v := g.Scalar(sqlh.DriverType(c))
+		if v.T == "bytes" && g.R.Chance(70) {
 			v.T = "string"
 		}
 		return v
 	case k < 74:
-		return g.scalar(baseType(c.Ty))
+		return g.Scalar(baseType(c.Ty))
 	case k < 82:
-		return g.retype(g.scalar(driverType(c)))
+		return g.Retype(g.Scalar(sqlh.DriverType(c)))
 	case k < 90:
-		e := g.scalar(baseType(c.Ty))
-		return sqlh.GV{T: "ptr", Addr: g.newAddr(), Elem: &e}
+		e := g.Scalar(baseType(c.Ty))
+		return sqlh.GV{T: "ptr", Addr: g.NewAddr(), Elem: &e}
 	case k < 96:
 		return sqlh.GV{T: "nil"}
 	}
@@ -190,7 +81,7 @@ func (g *gen) limitValue(c *sqlh.ColDesc) sqlh.GV {
 func (g *gen) limit(t *sqlh.TableDesc) sqlh.Filter {
 	sets := limitCols[t.Name]
 	f := sqlh.Filter{}
-	cols := sets[g.r.Intn(len(sets))]
+	cols := sets[g.R.Intn(len(sets))]
 	for _, c := range cols {
 		v := g.limitValue(t.Col(c))
 		// Comparing two []byte panics; with several limit columns Go's map order would decide whether the
@@ -205,7 +96,7 @@ func (g *gen) limit(t *sqlh.TableDesc) sqlh.Filter {
 
 func (g *gen) handle(t *sqlh.TableDesc) sqlh.Handle {
 	var h sqlh.Handle
-	k := g.r.Intn(100)
+	k := g.R.Intn(100)
 	switch {
 	case k < 50:
 		h.Shard = g.limit(t)
@@ -220,7 +111,7 @@ func (g *gen) handle(t *sqlh.TableDesc) sqlh.Handle {
 	case k < 95:
 		h.Shard = g.limit(t)
 		h.HasDyn, h.Dyn, h.DynCb = true, g.limit(t), true
-		if g.r.Chance(50) { // same dynamic limit as the shard limit, so that a call can comply with both
+		if g.R.Chance(50) { // same dynamic limit as the shard limit, so that a call can comply with both
 			h.Dyn = sqlh.Filter{}
 			for k, v := range h.Shard {
 				h.Dyn[k] = v
@@ -246,12 +137,12 @@ func (g *gen) readFilter(t *sqlh.TableDesc, h sqlh.Handle) (sqlh.Filter, string)
 			f[k] = v
 		}
 	}
-	for n := g.r.Intn(3); n > 0; n-- {
-		c := &t.Cols[g.r.Intn(len(t.Cols))]
+	for n := g.R.Intn(3); n > 0; n-- {
+		c := &t.Cols[g.R.Intn(len(t.Cols))]
 		if _, ok := f[c.Name]; !ok {
-			v := g.fieldValue(c)
-			if g.r.Chance(20) {
-				v = g.retype(v)
+			v := g.FieldValue(c)
+			if g.R.Chance(20) {
+				v = g.Retype(v)
 			}
 			f[c.Name] = v
 		}
@@ -259,20 +150,20 @@ func (g *gen) readFilter(t *sqlh.TableDesc, h sqlh.Handle) (sqlh.Filter, string)
 	keys := f.Keys()
 	lk := append(h.Shard.Keys(), h.Dyn.Keys()...)
 	mode := "comply"
-	k := g.r.Intn(100)
+	k := g.R.Intn(100)
 	switch {
 	case k < 50 || len(lk) == 0:
 	case k < 62:
 		mode = "drop-key"
-		delete(f, lk[g.r.Intn(len(lk))])
+		delete(f, lk[g.R.Intn(len(lk))])
 	case k < 76:
 		mode = "other-value"
-		c := lk[g.r.Intn(len(lk))]
-		f[c] = g.other(f[c])
+		c := lk[g.R.Intn(len(lk))]
+		f[c] = g.Other(f[c])
 	case k < 90:
 		mode = "retyped"
-		c := lk[g.r.Intn(len(lk))]
-		f[c] = g.retype(f[c])
+		c := lk[g.R.Intn(len(lk))]
+		f[c] = g.Retype(f[c])
 	case k < 94:
 		mode = "unknown-column"
 		f["nope"] = sqlh.GV{T: "int64", Z: 1}
@@ -319,7 +210,7 @@ func asField(c *sqlh.ColDesc, v sqlh.GV, g *gen) (sqlh.GV, bool) {
 	}
 	if strings.HasPrefix(c.Ty, "*") {
 		e := out
-		return sqlh.GV{T: "ptr", Addr: g.newAddr(), Elem: &e}, true
+		return sqlh.GV{T: "ptr", Addr: g.NewAddr(), Elem: &e}, true
 	}
 	return out, true
 }
@@ -330,7 +221,7 @@ func (g *gen) row(t *sqlh.TableDesc, h sqlh.Handle, comply bool) sqlh.Row {
 	r := make(sqlh.Row, len(t.Cols))
 	for i := range t.Cols {
 		c := &t.Cols[i]
-		r[i] = g.fieldValue(c)
+		r[i] = g.FieldValue(c)
 		if c.Primary && c.Name == "id" {
 			nextID++
 			if c.Ty == "string" {
@@ -362,38 +253,38 @@ var optsCatalogue = []*sqlh.Opts{
 }
 
 func (g *gen) genCase() Case {
-	t := sqlh.Tables[g.r.Intn(len(sqlh.Tables))]
+	t := sqlh.Tables[g.R.Intn(len(sqlh.Tables))]
 	c := Case{Table: t.Name, Handle: g.handle(t), Origin: "generated"}
-	c.InTx = g.r.Chance(25)
-	c.Batching = g.r.Chance(40)
+	c.InTx = g.R.Chance(25)
+	c.Batching = g.R.Chance(40)
 	ops := []string{"query", "query", "queryrow", "fullscan", "count", "insert", "insertrows", "upsert", "upsertrows", "update", "delete", "batch", "batch"}
-	c.Op = ops[g.r.Intn(len(ops))]
+	c.Op = ops[g.R.Intn(len(ops))]
 	switch c.Op {
 	case "query", "queryrow", "fullscan", "count":
 		c.Filter, _ = g.readFilter(t, c.Handle)
-		if c.Op != "count" && g.r.Chance(35) {
-			o := *optsCatalogue[g.r.Intn(len(optsCatalogue))]
+		if c.Op != "count" && g.R.Chance(35) {
+			o := *optsCatalogue[g.R.Intn(len(optsCatalogue))]
 			c.Opts = &o
 		}
 	case "insert", "upsert", "update", "delete":
-		c.Row = g.row(t, c.Handle, g.r.Chance(60))
+		c.Row = g.row(t, c.Handle, g.R.Chance(60))
 	case "insertrows", "upsertrows":
-		n := g.r.Intn(6)
-		allComply := g.r.Chance(55)
+		n := g.R.Intn(6)
+		allComply := g.R.Chance(55)
 		for i := 0; i < n; i++ {
-			c.Rows = append(c.Rows, g.row(t, c.Handle, allComply || g.r.Chance(70)))
+			c.Rows = append(c.Rows, g.row(t, c.Handle, allComply || g.R.Chance(70)))
 		}
-		c.Chunk = g.r.Intn(4)
-		if c.Chunk == 0 && g.r.Chance(70) {
+		c.Chunk = g.R.Intn(4)
+		if c.Chunk == 0 && g.R.Chance(70) {
 			c.Chunk = 2
 		}
 	case "batch":
 		c.Batching, c.InTx = true, false
-		n := 2 + g.r.Intn(5)
+		n := 2 + g.R.Intn(5)
 		for i := 0; i < n; i++ {
 			f, _ := g.readFilter(t, c.Handle)
-			if len(c.Filters) > 0 && g.r.Chance(20) {
-				f = copyFilter(c.Filters[g.r.Intn(len(c.Filters))])
+			if len(c.Filters) > 0 && g.R.Chance(20) {
+				f = copyFilter(c.Filters[g.R.Intn(len(c.Filters))])
 			}
 			c.Filters = append(c.Filters, f)
 		}
@@ -408,19 +299,19 @@ func contents() map[string][][]driver.Value {
 	for i := int64(1); i <= 9; i++ {
 		var nick driver.Value
 		if i%3 != 0 {
-			nick = smallStrings[i%4]
+			nick = sqlh.SmallStrings[i%4]
 		}
-		m["users"] = append(m["users"], []driver.Value{i, i % 4, smallStrings[i%5], nick, i % 5, i%2 == 0})
+		m["users"] = append(m["users"], []driver.Value{i, i % 4, sqlh.SmallStrings[i%5], nick, i % 5, i%2 == 0})
 		var note driver.Value
 		if i%2 == 0 {
 			note = "n"
 		}
-		m["items"] = append(m["items"], []driver.Value{i % 4, i, i % 3, smallStrings[i%3], note, []byte(smallStrings[i%4]), float64(i%5) / 4})
+		m["items"] = append(m["items"], []driver.Value{i % 4, i, i % 3, sqlh.SmallStrings[i%3], note, []byte(sqlh.SmallStrings[i%4]), float64(i%5) / 4})
 		var org driver.Value
 		if i%3 != 1 {
 			org = i % 4
 		}
-		m["events"] = append(m["events"], []driver.Value{fmt.Sprintf("e%d", i), org, smallStrings[i%3], i % 4})
+		m["events"] = append(m["events"], []driver.Value{fmt.Sprintf("e%d", i), org, sqlh.SmallStrings[i%3], i % 4})
 	}
 	return m
 }
@@ -836,7 +727,7 @@ func main() {
 	run := vh.NewRun("C12", o)
 	run.Rule = "one case = (table of a 3-table catalogue, shard and/or dynamic limit, in/out of a transaction, with/without batch.WithBatching, one DB method or 2-6 concurrent batched Query calls, filter/rows derived from the limit: 50-60% complying, else key dropped / other value / same value with another Go type or pointer / unknown column / empty); non-trivial = the handle enforces a limit and the call reached a limit check (not rejected for bad input); distinct by JSON of the case"
 	r := vh.NewRng(o.Seed)
-	g := &gen{r: r}
+	g := &gen{&sqlh.Gen{R: r}}
 
 	var cases []Case
 	if o.Replay != "" {
@@ -854,8 +745,8 @@ func main() {
 			}
 		}
 		for i := 0; i < o.N; i++ {
-			g.r = r.Fork()
-			g.addr = 0
+			g.R = r.Fork()
+			g.Addr = 0
 			cases = append(cases, g.genCase())
 		}
 	}
